@@ -138,13 +138,14 @@ structure Explored (S T : Type) where
 /-- Breadth-first closure of the initial pair under `letters`; stops at the first pair whose
 acceptance differs. -/
 def exploreLoop {S T : Type} [BEq S] [Hashable S] [BEq T] [Hashable T]
-    (MS : Machine S) (MT : Machine T) (letters : Array Letter) :
+    (MS : Machine S) (MT : Machine T) (tooBig : T → Bool) (letters : Array Letter) :
     Nat → Nat → Std.HashMap (S × T) Nat → Explored S T → Explored S T
   | 0, _, _, e => e
   | fuel + 1, i, idx, e =>
     if h : i < e.pairs.size then
       let (s, t) := e.pairs[i]
       if MS.acc s != MT.acc t then { e with bad := some i }
+      else if tooBig t then e
       else
         let (idx, pairs, parent, row) := letters.foldl (init := (idx, e.pairs, e.parent, (#[] : Array Nat)))
           (fun (idx, pairs, parent, row) a =>
@@ -154,14 +155,14 @@ def exploreLoop {S T : Type} [BEq S] [Hashable S] [BEq T] [Hashable T]
             | none =>
               let k := pairs.size
               (idx.insert p k, pairs.push p, parent.push (i, a), row.push k))
-        exploreLoop MS MT letters fuel (i + 1) idx
+        exploreLoop MS MT tooBig letters fuel (i + 1) idx
           { e with pairs := pairs, parent := parent, succ := e.succ.push row }
     else { e with complete := true }
 
 def explore {S T : Type} [BEq S] [Hashable S] [BEq T] [Hashable T]
-    (MS : Machine S) (MT : Machine T) (s0 : S) (t0 : T) (letters : Array Letter) (fuel : Nat) :
-    Explored S T :=
-  exploreLoop MS MT letters fuel 0 ((∅ : Std.HashMap (S × T) Nat).insert (s0, t0) 0)
+    (MS : Machine S) (MT : Machine T) (tooBig : T → Bool) (s0 : S) (t0 : T)
+    (letters : Array Letter) (fuel : Nat) : Explored S T :=
+  exploreLoop MS MT tooBig letters fuel 0 ((∅ : Std.HashMap (S × T) Nat).insert (s0, t0) 0)
     { pairs := #[(s0, t0)], succ := #[], parent := #[(0, (0, 0))], bad := none, complete := false }
 
 /-- The word leading from the initial pair to pair `i` (follows the parent pointers). -/
@@ -217,7 +218,7 @@ def checkEquivWith (A : Dfa) (r : Rx) (c : Cert (Option Nat) Rx) : Bool :=
   c.markers.contains 0 &&
   (Rx.markersOf r).all (fun m => c.markers.contains m) &&
   A.markersOf.all (fun m => c.markers.contains m) &&
-  verifyCert (dfaMachine A) rxMachine (some A.init) r c
+  verifyCert (dfaMachine A) rxMachine (some A.init) (Rx.norm r) c
 
 def equivSetup (A : Dfa) (r : Rx) : List Nat × Array Nat × List Nat × Array Letter :=
   let ms := dedupNat (0 :: (Rx.markersOf r ++ A.markersOf))
@@ -228,7 +229,8 @@ def equivSetup (A : Dfa) (r : Rx) : List Nat × Array Nat × List Nat × Array L
 /-- Search for a certificate, or for a distinguishing word. -/
 def equivSearch (fuel : Nat) (A : Dfa) (r : Rx) : Explored (Option Nat) Rx × Cert (Option Nat) Rx :=
   let (ms, rep, reps, letters) := equivSetup A r
-  let e := explore (dfaMachine A) rxMachine (some A.init) r letters fuel
+  let e := explore (dfaMachine A) rxMachine (fun t => t.size > 20000) (some A.init) (Rx.norm r)
+    letters fuel
   (e, certOfExplored ms rep reps e)
 
 /-- Decides, for ALL marked words, whether automaton `A` accepts exactly the words of `L r`
@@ -257,7 +259,8 @@ def bisimSearch (fuel : Nat) (A B : Dfa) :
   let ms := dedupNat (0 :: (A.markersOf ++ B.markersOf))
   let (rep, reps) := mkReps (fun b => sigDfa A b ++ sigDfa B b)
   let letters := (reps.flatMap (fun b => ms.map (fun m => (b, m)))).toArray
-  let e := explore (dfaMachine A) (dfaMachine B) (some A.init) (some B.init) letters fuel
+  let e := explore (dfaMachine A) (dfaMachine B) (fun _ => false) (some A.init) (some B.init)
+    letters fuel
   (e, certOfExplored ms rep reps e)
 
 /-- Decides, for ALL words, whether two automata accept the same byte strings with the same
